@@ -76,6 +76,7 @@ structure Parser where
   actions : List Action
   required : List Key      -- `parser.required_args` (a set)
   links : List Link        -- `parser._links_group._group_actions`, in the order of the `link_arguments` calls
+  optActs : List (String × Action) := []   -- `parser._option_string_actions`: every option string and the action it reaches
 deriving Repr, Inhabited
 
 /-- the parts of the parser that are not link logic -/
@@ -138,6 +139,11 @@ def replaceAction (old new : Action) : List Action → List Action
   | [] => []
   | a :: r => if a = old then new :: r else a :: replaceAction old new r
 
+/-- `for key in target_action.option_strings: parser._option_string_actions[key] = self`: EVERY option string that
+    reaches the target action (aliases, the `--no_` form of a yes/no flag) is redirected to the link action -/
+def redirectOpts (old new : Action) (opts : List (String × Action)) : List (String × Action) :=
+  opts.map fun oa => if oa.2 = old then (oa.1, new) else oa
+
 /-- the resolution of the source keys: every key must have a parent or child action -/
 def resolveSources (acts : List Action) : List Key → List Bool → Option (List Src)
   | [], _ => some []
@@ -166,6 +172,7 @@ def addLink (p : Parser) (sources : List Key) (coerce : List Bool) (target : Key
       else
         let replaced := !isSub || leaf
         .ok { actions := if replaced then replaceAction ta ⟨target, .link⟩ p.actions else p.actions
+              optActs := if replaced then redirectOpts ta ⟨target, .link⟩ p.optActs else p.optActs
               required := p.required.filter (· != target)
               links := p.links ++ [⟨srcs, target, fn, if replaced then .plain else .initArg ta.dest.length⟩] }
     | _, _ => .error .noAction
@@ -279,6 +286,12 @@ def validateRequired (req : List Key) (cfg : KV) : Bool :=
 
 /-- `ActionLink.__call__`: the option string of a replaced target raises -/
 def actionCall (_l : Link) : Except PErr KV := .error .linkCall
+
+/-- an option string met in argv: argparse calls the action `_option_string_actions` holds for it -/
+def optionCall (p : Parser) (opt : String) : Except PErr Unit :=
+  match p.optActs.find? (fun oa => oa.1 == opt) with
+  | some oa => if oa.2.kind == .link then .error .linkCall else .ok ()
+  | none => .ok ()
 
 /-- is `k` the dest of a link action standing in `parser._actions` (a plain target)? -/
 def isPlainTarget (p : Parser) (k : Key) : Bool :=
